@@ -24,7 +24,10 @@ def build_lines(st, decorate, rnd):
         if decorate:
             extra = [["xn:i:-3"], ["xx:Z:a:b", "xf:f:1e-05"], ["xs:Z:two words "], ["xa:A:*"]][int(n["id"][1:]) % 4]
             tags += extra
-        S.append("\t".join(["S", n["id"], seq_of(n["id"], n["ln"])] + tags))
+        sq = seq_of(n["id"], n["ln"])
+        if decorate and int(n["id"][1:]) % 3 == 1:      # soft-masked / ambiguous bases: the sequence text is data, not a normal form
+            sq = sq[:1].lower() + sq[1:-1] + ("n" if len(sq) > 1 else "")
+        S.append("\t".join(["S", n["id"], sq] + tags))
     for k, l in enumerate(sorted(st["links"], key=lambda l: (l["a"], l["ao"], l["b"], l["bo"]))):
         a, ao, b, bo = l["a"], l["ao"], l["b"], l["bo"]
         ov, tags = "0M", []
